@@ -400,6 +400,11 @@ type vStressRec struct {
 }
 
 func vStressSize(rng *rand.Rand, maxsz int) int {
+	if maxsz >= 1<<22 {
+		// few, very large requests: every goroutine overshoots the current chunk while another one is growing the
+		// allocator (the offset half of the packed word advances by megabytes per attempt)
+		return maxsz - rng.Intn(64)
+	}
 	switch rng.Intn(10) {
 	case 0:
 		return rng.Intn(3)
